@@ -552,6 +552,37 @@ impl Check for C05 {
     }
 }
 
+/// Old/new interface pair over `env` (extended in place with an edited `_new` copy
+/// of every definition): returns (type over the old names, the same type over the
+/// new names). Used by C04 as a source of pairs for which the checker has to probe
+/// below `opt` and back out.
+pub(crate) fn primed_pair(e: &mut Ent, env: &mut Env, sc: &Scope, cfg: &TypeCfg) -> (Ty, Ty) {
+    let names: Vec<String> = env.defs.iter().map(|d| d.0.clone()).collect();
+    let mut copies: Vec<(String, Ty)> = env.defs.iter().map(|(n, t)| (format!("{n}_new"), prime(t, &names))).collect();
+    let k = e.below(copies.len());
+    let d = *e.pick(&[Dir::Unrelated, Dir::Unrelated, Dir::Super, Dir::Sub]);
+    let edited = step(e, env, sc, &copies[k].1, d, cfg, 0);
+    if std::mem::discriminant(&edited) == std::mem::discriminant(&copies[k].1) && !matches!(edited, Ty::Var(_)) {
+        copies[k].1 = edited;
+    }
+    env.defs.extend(copies);
+    let a = Ty::Var(names[e.below(names.len())].clone());
+    let b = Ty::Var(names[e.below(names.len())].clone());
+    let a = match e.below(5) {
+        0 => Ty::Record(vec![(Lab::Named("a".into()), a)]),
+        1 => Ty::vec(a),
+        2 => Ty::Variant(vec![(Lab::Named("c".into()), a), (Lab::Named("d".into()), Ty::Prim(Prim::Null))]),
+        _ => a,
+    };
+    let t1 = match e.below(3) {
+        0 => Ty::Record(vec![(Lab::Named("p".into()), Ty::opt(a)), (Lab::Named("q".into()), Ty::vec(b))]),
+        1 => Ty::Record(vec![(Lab::Named("p".into()), Ty::opt(a)), (Lab::Named("q".into()), b)]),
+        _ => Ty::Record(vec![(Lab::Named("p".into()), Ty::opt(a)), (Lab::Named("q".into()), Ty::opt(Ty::vec(b.clone()))), (Lab::Named("r".into()), b)]),
+    };
+    let t2 = prime(&t1, &names);
+    (t1, t2)
+}
+
 fn rename_vars(t: &Ty, f: &dyn Fn(&str) -> String) -> Ty {
     match t {
         Ty::Var(n) => Ty::Var(f(n)),
